@@ -219,6 +219,10 @@ func init() {
 			"E1.redirect.try-error-redirect", "E1.redirect.error-normaliser-keeps-error":
 			// C10: "an error redirect [only] to the already validated redirect URI" when the storage fails
 			sharedObs["C10"] = append(sharedObs["C10"], o)
+		case "E8.redirect.code-response", "E8.redirect.token-response":
+			// C11: "parameters arrive ... with exactly the values the provider produced": what is redirected to is the URL
+			// AuthResponseURL built for this request, not a re-parsed / re-encoded derivative of it
+			sharedObs["C11"] = append(sharedObs["C11"], o)
 		}
 	}
 	register(&PropSpec{
